@@ -622,9 +622,10 @@ def describe():
               "end, None, [], empty tables), any time_step, sensor models, capacity knob, "
               "both modes: the REAL feedback filter's trajectory must be bit-identical to one "
               "Integrator.integrate call. (R) a history machine whose operations are whole "
-              "filter runs (feedback/feedforward on scenario A or B) sharing the SAME "
-              "EstimationModel and measurement objects: each run's result digest must equal "
-              "that of the same run with freshly built objects. (F) consistent gentle world, "
+              "filter runs (feedback/feedforward on scenario A or B, in 40 % of the histories "
+              "some of them in the other altitude mode) sharing the SAME EstimationModel, "
+              "measurement, initial-state and table objects: each run's result digest must "
+              "equal that of the same run with freshly built objects. (F) consistent gentle world, "
               "aiding on IMU epochs, time_step <= 0.5 s; every injected error and every sigma "
               "scaled by s in {1, 0.1, 0.01}; D(s) = max |feedback - feedforward| in "
               "feedforward sigma units must fall tenfold per decade down to a calibrated residual (DESIGN.md 3.5). "
@@ -642,7 +643,9 @@ def describe():
             "D(0.1) <= 0.5*D(1) + tau0, D(0.01) <= 0.2*D(0.1) + tau0 is demanded only down to a residual tau0 that depends "
             "on the world class (2e-2 weak/3-D ... 0.55 strong/2-D), because the discretised "
             "error model leaves a first-order residual (DESIGN.md 3.5). A first-order defect "
-            "smaller than about 2e-2 sigma is not caught. NedVelocity lever arms are outside "
+            "smaller than about 2e-2 sigma is not caught (about 1e-2 in the 30 % 'quiet' "
+            "worlds - straight leg, constant velocity and attitude - which have their own, "
+            "tighter calibrated thresholds). NedVelocity lever arms are outside "
             "the ladder's domain (finding F7).",
             "Ladder thresholds are calibrated on the repaired tree with >= 5x head-room."],
         probes_wanted=PROBES_WANTED)
